@@ -28,7 +28,7 @@ fn mkcaller(v) { var inner = Fiber.new(|| { Fiber.yield(1); return v; }); var ou
 fn mkopen(v) { var out = []; var f = Fiber.new(|| { var keep = v; out.push(|| keep); Fiber.yield(0); }); f.call(); return out[0]; }
 fn mkmethodholder(v) { #[constructor(new)] class H { fn get(self) { return v; } } return H; }
 fn mkstatic(v) { class S { #[static] fn get() { return v; } } return S; }
-fn garbage() { var a = [[1], [2], [3]]; var b = (1, (2, 3)); var c = {"a": [1], "b": "x" + "y"}; var d = K.new(); var e = 100..107; var f = || a; return nil; }
+fn garbage() { var a = [[1], [2], [3]]; var b = (1, (2, 3)); var c = {"a": [1], "b": "x" + "y"}; var d = K.new(); var e = [100..101, 100..102, 100..103, 100..104, 100..105, 100..106, 100..107, 100..108, 100..109, 100..110]; var f = || a; return nil; }
 "#;
 
 struct Referent {
